@@ -327,6 +327,9 @@ source_release_buffer(void *buffer)
   xlock(&source_mutex);
   if (in_slots++ == 0)
     xsignal(&source_cond);
+#ifdef KJN_LBZIP2_VERIF
+  vh_in_slots(process->tasks->ready != NULL, in_slots, total_in_slots);
+#endif
   xunlock(&source_mutex);
 }
 
@@ -454,6 +457,9 @@ worker_thread_proc(void)
   for (;;) {
     while (next_task != NULL) {
       Trace(("worker[%2u]: scheduling task '%s'...", id, next_task->name));
+#ifdef KJN_LBZIP2_VERIF
+      vh_event(VH_EV_TASK);
+#endif
       next_task->run();
       select_task();
     }
@@ -486,6 +492,10 @@ sched_lock(void)
 void
 sched_unlock(void)
 {
+#ifdef KJN_LBZIP2_VERIF
+  vh_conserve(process->tasks->ready != NULL, work_units, num_worker,
+              out_slots, total_out_slots);
+#endif
   select_task();
 
   if (next_task != NULL || process->finished())
@@ -527,6 +537,9 @@ primary_thread(void)
 {
   unsigned i;
 
+#ifdef KJN_LBZIP2_VERIF
+  vh_run_begin();
+#endif
   thread_id = 0;
 
   eof = false;
@@ -553,6 +566,10 @@ primary_thread(void)
   assert(in_slots == total_in_slots);
   assert(out_slots == total_out_slots);
   assert(work_units == num_worker);
+#ifdef KJN_LBZIP2_VERIF
+  vh_final(eof, in_slots, total_in_slots, out_slots, total_out_slots,
+           work_units, num_worker);
+#endif
 
   xraise(SIGUSR2);
 }
